@@ -1,23 +1,23 @@
-(* Thin driver around the extracted model of hidc's bool_expr_branch (coq/Codegen/LowerBoolModel.v).
-   stdin : one program per line, in the shape of the correspondence programs
-             empty @is_you(int a0 .. int a(n-1)) { bool b0 = D0; bool b1 = D1; ..; if (C) .. }
-           as
+(* Thin driver around the extracted model of hidc's bool_expr_branch / truth_is_defeat
+   (coq/Codegen/LowerBoolModel.v).
+   stdin : one program per line: functions with int parameters and bool locals, as
              <w> <nparams> <stmt> ... <stmt>
-           stmt ::= (decl E)           `bool x = E;` whose checked initialiser is a comparison /
-                                       and / or: eval_expr BooleanOp case with keep = True, the
-                                       result byte is reserved on the frame (Model: value_lowering_keep)
-                  | (skipdecl)         a bool declaration that does not go through bool_expr_branch
-                                       (reserves its byte all the same)
-                  | (skip)             another statement that does not go through bool_expr_branch
-                  | (if E)             IfBlock condition                (Model: if_block)
+           stmt ::= (decl E)           `bool x = E;`                       (Model.declare_bool)
+                  | (assign <j> E)     `bj = E;`, bj the j-th bool local   (Model.assign_bool)
+                  | (if E)             IfBlock condition                   (Model.if_block)
                   | (val <r> E)        BooleanOp in value position into register r0|r1|r2
-                                                                        (Model: value_lowering)
+                                                                           (Model.value_lowering)
+                  | (defeat s|v E)     `!truth_is_defeat(E);` with static / virtual defeat
+                                                                           (Model.lower_defeat)
+                  | (skip)             a statement that does not lower a boolean expression
+                  | (newfun <nparams>) start of the next function: the frame offset is reset,
+                                       the label counters continue; no output segment
            E    ::= (lit 0|1) | (bvar j) | (cmp OP A A) | (not E) | (and E E) | (or E E)
            OP   ::= lt | gt | le | ge | eq | ne
            A    ::= (i k)   k-th int parameter   | (n z)   integer literal
-                  | (ar add|sub|mul A A)
+                  | (ar add|sub|mul A A) | (un neg|pos A)
            The label counters start at 0 and the frame offset at (nparams+1)*w; both are threaded
-           through the statements in order.
+           through the statements in order (a declaration reserves one byte).
    stdout: one line per program: the statements' segments separated by " @@ ", the lines of a
            segment separated by tabs, each line rendered by Model.print_aline. *)
 open Hidlower_core
@@ -84,6 +84,8 @@ let rec opd_of = function
   | L [Atom "i"; Atom k] -> OVar (nat_of_int (int_of_string k))
   | L [Atom "n"; Atom z] -> OLit (z_of_string z)
   | L [Atom "ar"; Atom op; x; y] -> OArith (aop_of op, opd_of x, opd_of y)
+  | L [Atom "un"; Atom "neg"; x] -> OUn (UNeg, opd_of x)
+  | L [Atom "un"; Atom "pos"; x] -> OUn (UPos, opd_of x)
   | _ -> failwith "bad operand"
 
 let rec expr_of = function
@@ -109,15 +111,22 @@ let run_line (line : string) : string =
     let bump env = with_top env (Z.add env.stack_top (Zpos XH)) in
     let step (env, st, acc) s = match s with
       | L [Atom "decl"; e] ->
-        let (c, st') = value_lowering_keep env (expr_of e) st in
+        let (c, st') = declare_bool env (expr_of e) st in
         (bump env, st', render c :: acc)
-      | L [Atom "skipdecl"] -> (bump env, st, "" :: acc)
+      | L [Atom "assign"; Atom j; e] ->
+        let (c, st') = assign_bool env (env.bool_off (nat_of_int (int_of_string j))) (expr_of e) st in
+        (env, st', render c :: acc)
       | L [Atom "skip"] -> (env, st, "" :: acc)
+      | L [Atom "newfun"; Atom np'] ->
+        (is_you_env (z_of_int (int_of_string w)) (nat_of_int (int_of_string np')), st, acc)
       | L [Atom "if"; e] ->
         let (((c, _), _), st') = if_block env (expr_of e) st in
         (env, st', render c :: acc)
       | L [Atom "val"; Atom r; e] ->
         let (c, st') = value_lowering env (expr_of e) (reg_of r) st in
+        (env, st', render c :: acc)
+      | L [Atom "defeat"; Atom k; e] ->
+        let (c, st') = lower_defeat env (k = "v") (expr_of e) st in
         (env, st', render c :: acc)
       | _ -> failwith "bad statement" in
     let (_, _, segs) = List.fold_left step (env0, st0, []) (parse_all rest) in
